@@ -124,6 +124,8 @@ extern int g_wl, g_wu, g_wdl, g_wdu;
 #define WIT_L (T_LG_L(g_wl))
 #define WIT_U (T_LG_U(g_wu))
 #define HALF_OF(n, m) (TVALID(n) && g_top(n) == T_MUL && L_HALF(g_ta(n)) && g_tb(n) == (m))
+static _Bool wd_is(int n, _Bool bypass, double wall) { return TVALID(n) && g_top(n) == T_CALL + CID_DIST2 && g_ta(n) == 0 && TVALID(g_tb(n)) && g_top(g_tb(n)) == T_CALL + (bypass ? CID_ACTUAL_VALUE : CID_VALUE) && g_ta(g_tb(n)) == 0 && P_LEAF(g_tc(n), wall); }
+static _Bool wd_exists(int which, _Bool bypass, double wall) { for (int k = 0; k < 16; k++) if (wd_is(k, bypass, wall)) return 1; return 0; }
 double k_walls_colvar_distance(size_t i, double lw, double uw, int has_lower, int has_upper, _Bool bypass)
 __CPROVER_requires(i < 2 && FIN(lw) && FIN(uw) && lw < uw && g_tn == 0)
 __CPROVER_requires((has_lower == 0 || has_lower == 1) && (has_upper == 0 || has_upper == 1) && (g_cv_periodic[0] == 0 || g_cv_periodic[0] == 1))
@@ -144,6 +146,9 @@ __CPROVER_ensures((g_cv_periodic[0] && T_D2_L(g_wdl) && T_D2_U(g_wdu) && g_tv[g_
 __CPROVER_ensures((g_cv_periodic[0] && T_D2_L(g_wdl) && T_D2_U(g_wdu) && !(g_tv[g_wdl] < g_tv[g_wdu])) ==> (L_ZERO(g_ret) || T_LG_U(g_tb(g_ret))))
 __CPROVER_ensures((g_cv_periodic[0] && L_ZERO(g_ret) && WIT_L && T_D2_L(g_wdl) && T_D2_U(g_wdu) && g_tv[g_wdl] < g_tv[g_wdu]) ==> !(g_tv[g_wl] < 0.0))
 __CPROVER_ensures((g_cv_periodic[0] && L_ZERO(g_ret) && WIT_U && T_D2_L(g_wdl) && T_D2_U(g_wdu) && !(g_tv[g_wdl] < g_tv[g_wdu])) ==> !(g_tv[g_wu] > 0.0))
+/* periodic: the two squared distances that are compared ARE computed, over the variable's own (shortest-image) metric -- without this clause
+   the witness clauses above would hold vacuously for a comparison made over another metric */
+__CPROVER_ensures(g_cv_periodic[0] ==> (wd_exists(0, bypass, lw) && wd_exists(1, bypass, uw)))
 ;
 /* callers of colvar_distance see it through this stand-in (result = ghost g_wdist) */
 extern double g_wdist; extern int g_nwd;
